@@ -13,7 +13,12 @@ def run(ctx):
                     invariants=W.INV_CONF, constraints=["NreqCap"], must_cover=["Round", "Done"], timeout=3000)
     ctx.model_check("MC_Walk", "bulk_terminates", constants=W.consts("CandQ", "RootC", 2 if q else 3, bulks, False),
                     properties=["Terminates"], must_cover=["Round"], timeout=3000)
+    # RFC 3416 4.2.3 in full: responses that end inside their first repetition (the bulk fetcher completes the repetition)
+    ctx.model_check("MC_Walk", "bulk_partial_first", constants=W.consts("CandQ", "RootC", 2 if q else 3, "{1,2}", False, PartialFirst=True),
+                    invariants=W.INV_CONF, constraints=["NreqCap"], must_cover=["Round", "Done"], timeout=3000)
     if not q:
+        ctx.model_check("MC_Walk", "selftest_partial_first_lost", constants=W.consts("CandQ", "RootC", 2, "{1,2}", False, PartialFirst=True, PinPartialFirstLost=True),
+                        invariants=W.INV_CONF, constraints=["NreqCap"], expect=["Complete", "BulkEqualsGetNext"])
         ctx.model_check("MC_Walk", "selftest_collapse", constants=W.consts("CandQ", "RootC", 3, "{1,2}", False, PinCollapse=True),
                         invariants=W.INV_CONF, constraints=["NreqCap"], expect=["Complete", "BulkEqualsGetNext"])
     rnd = random.Random(ctx.seed)
@@ -36,6 +41,10 @@ def run(ctx):
     for sc in W.random_big(rnd, 200 if q else 2000, [1, 2, 3, 5, 10, 25, 50]):
         S.append(dict(sc, api="bulkwalk", cut=rnd.choice(cuts + ["seed:%d" % rnd.randrange(10 ** 6)]),
                       proto=rnd.choice(["v2c", "v2c", "v2c"] + W.PROTO_SAMPLE)))
+    # max-repetitions whose top bit falls on an octet boundary (128, 200, 255): an INTEGER like any other
+    for m in (127, 128, 200, 255):
+        S.append(dict(db=[[1, k] for k in range(1, 12)] + [[2, 1]], roots=[[1]], bulk=m, api="bulkwalk", cut="full", proto="v2c"))
+        S.append(dict(db=[[1, k] for k in range(1, 6)] + [[2, 1], [2, 2]], roots=[[1], [2]], bulk=m, api="bulkwalk", cut="one_row", proto=rnd.choice(W.PROTO_SAMPLE)))
     # many roots in one call (a request with more than 100 repeaters is still an ordinary request)
     for nroots in (99, 100, 101, 130):
         manydb = [[k, j] for k in range(1, nroots + 1) for j in range(1, 1 + (k % 3))]
@@ -51,11 +60,11 @@ def run(ctx):
     # the GETNEXT walk of the same scenario is validated by the same monitor (C01); both are judged against
     # Strict/Opt of the database, so equality of the two result sets (modulo root instances) follows per scenario
     ctx.rule = ("TLC-enumerated (database, root list) scenarios x max-repetitions x agent truncation policy "
-                "{full, one repetition, minus one binding, one row plus one, seeded prefix} through Client.bulkwalk / PyWrapper.bulkwalk; the universe placed over the usmStats / "
+                "{full, one repetition, minus one binding, one row plus one, cut inside the first repetition, seeded prefix} through Client.bulkwalk / PyWrapper.bulkwalk; the universe placed over the usmStats / "
                 "system / snmpV2 subtrees (overshoot into objects the library knows by name) for v2c and all v3 levels; "
                 "the bulk result is judged against the same Strict/Opt sets as the GETNEXT walk; non-trivial = >= 2 requests and >= 1 instance")
     W.drive_and_judge(ctx, S)
-    ctx.assumptions = ["conformant truncation = any prefix of the repetition matrix holding at least one full repetition",
+    ctx.assumptions = ["conformant truncation = any non-empty prefix of the repetition matrix (RFC 3416 4.2.3), incl. one that ends inside the first repetition",
                        "equality with the GETNEXT walk is modulo instances whose OID equals a root (C01 accepts both)"]
 
 
